@@ -108,14 +108,25 @@ theorem stripBrackets_of_head {h : Bytes} (hh : h.head? ≠ some lbr) : stripBra
 
 /-! ### a fresh certificate names its host -/
 
-theorem verifyHostname_issue (cfg : Config) {host : Bytes} (now : Int) (n : Nat)
+/-- `VerifyHostname` looks at the SAN only: a certificate carrying the SAN the template builds for
+`host` names `host`. -/
+theorem verifyHostname_of_san {c : Cert} {host : Bytes} (hsan : (c.names, c.ips) = sanFor host)
     (h1 : host ≠ []) (h2 : host ≠ [dot]) (h3 : host.head? ≠ some lbr) :
-    verifyHostname (issue cfg host now n) host = true := by
+    verifyHostname c host = true := by
   unfold verifyHostname
   rw [stripBrackets_of_head h3]
   cases hp : parseIP host with
-  | some ip => simp [issue, sanFor, hp]
-  | none => simp [issue, sanFor, hp, matchDNS_self h1 h2]
+  | some ip =>
+    simp only [sanFor, hp, Prod.mk.injEq] at hsan
+    simp [hsan.2]
+  | none =>
+    simp only [sanFor, hp, Prod.mk.injEq] at hsan
+    simp [hsan.1, matchDNS_self h1 h2]
+
+theorem verifyHostname_issue (cfg : Config) {host : Bytes} (now : Int) (n : Nat)
+    (h1 : host ≠ []) (h2 : host ≠ [dot]) (h3 : host.head? ≠ some lbr) :
+    verifyHostname (issue cfg host now n) host = true :=
+  verifyHostname_of_san (by simp [issue]) h1 h2 h3
 
 theorem verifiesFor_issue (cfg : Config) {host : Bytes} (now : Int) (n : Nat)
     (hv : 1000 ≤ cfg.validity) (h1 : host ≠ []) (h2 : host ≠ [dot]) (h3 : host.head? ≠ some lbr) :
